@@ -69,6 +69,23 @@ def emit(kind, blob, payload_name, payload, cls, expect_ok=None, status='intact'
     cases.append('%s\t%s\t%s\t%d\t%s\t%s' % (name, 'gzip' if kind == 'gz' else 'bzip2', payload_name, explen, cls, status))
 
 
+GZ_BLIND = 'gz truncated inside a stream where the partial stream inflates to a positive multiple of 16384 bytes (the output buffer of zlib gzread)'
+
+
+def partial_inflate_len(piece):
+    """number of bytes the truncated gzip member `piece` inflates to (-1: not even a header)"""
+    try:
+        o = zlib.decompressobj(wbits=31)
+        return len(o.decompress(piece))
+    except zlib.error:
+        return -1
+
+
+def zlib_blind_spot(piece):
+    n = partial_inflate_len(piece)
+    return n > 0 and n % 16384 == 0
+
+
 def make_payload(k, n, entropy):
     if entropy == 'high':
         data = random.Random(seed * 1000 + k).randbytes(n)
@@ -179,6 +196,27 @@ for kind in ('gz', 'bz2'):
                     break
             if found:
                 emit(kind, found[1], hp[0], hp[1][:found[0]], '%s %d stream(s), total compressed size = 0 mod %d' % (kind, nstreams, modulus), expect_ok=None)
+    # ---- deliberate witnesses of the zlib gzread blind spot (recorded finding): truncate where the cut stream has
+    # produced exactly 16384 bytes
+    if kind == 'gz':
+        big = [p for p in payloads if p[2] == 'high' and len(p[1]) >= 30000][0]
+        for nstreams in (1, 2):
+            first = comp(kind, big[1][:5000], 9) if nstreams == 2 else b''
+            start = 5000 if nstreams == 2 else 0
+            second = comp(kind, big[1][start:start + 25000], 9)
+            lo, hi = 1, len(second) - 1
+            cutpos = None
+            while lo <= hi:
+                mid = (lo + hi) // 2
+                n = partial_inflate_len(second[:mid])
+                if n < 16384:
+                    lo = mid + 1
+                else:
+                    hi = mid - 1
+                    if n == 16384:
+                        cutpos = mid
+            if cutpos is not None:
+                emit(kind, first + second[:cutpos], big[0], big[1][:start + 25000], GZ_BLIND, status='damaged')
     # ---- damaged files
     small = [p for p in payloads if 100 <= len(p[1]) <= 30000]
     for (pname, pdata, entropy) in small:
@@ -217,6 +255,8 @@ for kind in ('gz', 'bz2'):
                     # fewer bytes than the magic number of the next stream are left: the
                     # compression libraries treat this as ignorable trailing garbage
                     emit(kind, blob[:c], pname, pdata, '%s truncated within the magic bytes of a following stream' % kind, status='notjudged')
+                elif kind == 'gz' and zlib_blind_spot(blob[last:c]):
+                    emit(kind, blob[:c], pname, pdata, GZ_BLIND, status='damaged')
                 else:
                     emit(kind, blob[:c], pname, pdata, '%s truncated inside a stream (%d stream(s))' % (kind, nstreams), status='damaged')
             # single byte corruption
